@@ -200,7 +200,17 @@ func (h *RealtimeHandler) HandleParticipantJoin(ctx context.Context, handleFrame
 		SignedLatency: &models.SignedLatency{},
 	}
 
-	session.AddParticipant(participant)
+	if !session.AddParticipant(participant) {
+		// The last participant left the session after it was looked up: the
+		// session has ended and is being unregistered.
+		respond.Send(&hagallpb.ErrorResponse{
+			Type:      hagallpb.MsgType_MSG_TYPE_ERROR_RESPONSE,
+			Timestamp: timestamppb.Now(),
+			RequestId: req.RequestId,
+			Code:      hagallpb.ErrorCode_ERROR_CODE_NOT_FOUND,
+		})
+		return nil
+	}
 	h.stopFrameHandling = session.HandleFrame(handleFrame)
 
 	respond.Send(&hagallpb.ParticipantJoinResponse{
@@ -1027,7 +1037,7 @@ func (h *RealtimeHandler) leaveSession() {
 	if h.stopFrameHandling != nil {
 		h.stopFrameHandling()
 	}
-	session.RemoveParticipant(participant)
+	last := session.RemoveParticipant(participant)
 
 	h.FeatureFlags.IfNotSet(featureflag.FlagDisableParticipantLeaveBroadcast, func() {
 		session.Broadcast(participant, &hagallpb.ParticipantLeaveBroadcast{
@@ -1038,7 +1048,7 @@ func (h *RealtimeHandler) leaveSession() {
 		})
 	})
 
-	if session.ParticipantCount() == 0 {
+	if last {
 		// Here we use a context.Background to ensure the session to be deleted
 		// on the session discovery service (eg HDS).
 		h.Sessions.Remove(context.Background(), session)
